@@ -201,7 +201,8 @@ ClausesOf(p) ==
     [] p = "C08" -> {"Succeeds", "MPEInequality", "MPEObjective", "OneSlackPerRoute", "OneWeightPerRoute", "NonNegative",
                      "NodesOfG", "EdgesOfG", "StartsOK", "EndsOK"}
     [] p = "C09" -> {"Succeeds", "Covers", "NodesOfG", "EdgesOfG", "StartsOK", "EndsOK", "ConstraintsHonoured", "ObjIsCount"}
-    [] p = "C10" -> {"ConstraintsHonoured"}
+    [] p = "C10" -> {"ConstraintsHonoured", "NodesOfG", "EdgesOfG", "StartsOK", "EndsOK", "FDExact", "Covers",
+                     "MPEInequality", "LAEObjective", "Succeeds"}
     [] p = "ALL" -> {"NodesOfG", "EdgesOfG", "StartsOK", "EndsOK", "SimpleIfDAG", "RoutesKey",
                      "OneWeightPerRoute", "OneSlackPerRoute", "NonNegative", "AtMostK", "ExactlyK",
                      "NoEmptyRoute", "GetSolutionReturns", "FDExact", "WeightTypes", "Covers",
